@@ -728,7 +728,9 @@ class RequestHandler(BaseProtocol, Generic[_Request]):
                 resp, reset = await self.finish_response(request, resp, start_time)
         finally:
             self._request_in_progress = False
-            if self._handler_waiter is not None:
+            # shutdown() may have given up (timeout, cancellation) a moment ago:
+            # the future is cancelled before shutdown() runs again to drop it.
+            if self._handler_waiter is not None and not self._handler_waiter.done():
                 self._handler_waiter.set_result(None)
 
         return resp, reset
